@@ -20,7 +20,8 @@ LEVEL_NOTE = 'trusted: vk/hier.py (own library parse + flattening), vk/gen_circu
 DESIGN_REF = 'DESIGN.md section 3 C10'
 LEVEL = 'exploration'
 RULE = ('Cases: (library cell, connected pin subset, composition) / (implementation shape, pin subset) / (random hierarchical circuit, composition). Non-trivial iff '
-        'the observed function depends on >= 2 sources or a pin is left unconnected. Distinct = digest of all case fields.')
+        'the observed function depends on >= 2 sources or a pin is left unconnected. Distinct = digest of all case fields.'
+        ' Plus copy/pickle of circuits whose index order differs from their creation order (after eliminate_1to1_forks) and of the resolved b15 netlist (44k nodes); order changes are attributed per step.')
 ASSUMPTIONS = ['a sequential library cell whose cell name contains neither dff nor latch (DLH_X1, TLATX1, ...) is not a state element of the un-resolved circuit; if it only feeds pruned logic its disappearance is accepted',
                'the function is not compared when an open instance pin is the trailing operand of an AND/NAND primitive (reads-0 vs. pin-absent is not decided by the property)',
                'an unconnected instance input pin reads constant 0',
